@@ -45,10 +45,12 @@ Proof.
   destruct Hpid as (Hp & Hp0 & Hb2).
   destruct (if v =? 5 then _ else _) as [[pr b3]| | |] eqn:E3; cbn [bind] in H; try discriminate.
   apply oprops_dec in E3; [|assumption]. destruct E3 as [Hpr Hb3].
+  destruct ((len topic =? 0) && _) eqn:Etok; [discriminate|].
   inversion H; subst. split; [|eauto 8].
   cbn [dec_inv]. repeat split; auto.
   - unfold istr_ok. rewrite Hu by reflexivity. lia.
   - unfold impl_name. rewrite En. reflexivity.
+  - unfold pub_topic_ok. rewrite Etok. reflexivity.
 Qed.
 
 Lemma ack_tail_dec : forall ctx b code pr,
